@@ -20,6 +20,17 @@ CLAIMED = {
         design_ref='DESIGN.md 4 C01',
         note=TRUST + 'Also trusted: lib/symnp.SymArr (numpy view model), lib/simmpi (MPI collective contract). Bounds: ranks 2-3 '
                      '(thorough 2-4), N=4/3 (thorough 6/4/3), <=3 processes per direction; payload type abstracted.'),
+    'C02': dict(
+        category='proof',
+        technique='concolic symbolic execution of the real Layout/Grid code on z3 Int (unbounded extent) and bit-vector proxies; SMT queries',
+        text='(a) For every process count p<=8 (thorough 32), every rank and the listed 2-D grids/orderings, Layout.__init__ is run '
+             'on an unbounded symbolic extent n>=p and z3 proves: blocks tile [0,n) in rank order, lengths differ by at most one and '
+             'are >=1, tables agree on all ranks, starts/ends/shape/max_block_shape/fullShape agree with them (a proof for all n per '
+             'listed p). (b) bufferSize >= every layout block for bit-vector extents <= N. (c) the real Grid accessors run on '
+             'symbolic-length coordinate sequences and agree with the tables. Counter-models replayed on real numpy.',
+        design_ref='DESIGN.md 4 C02',
+        note=TRUST + 'Bounds: p per direction as listed; buffers/accessors for extents <= 4..8. Transpose sufficiency of the buffer '
+                     'is the absence of numpy errors in the C01/C03 runs.'),
     'C20': dict(
         category='proof',
         technique='concolic symbolic execution of the real Python function on z3 Int proxies; per-path SMT queries (bounded)',
